@@ -140,11 +140,13 @@ example : (build k3Counts k3Values).bind (fun t => lookup t 0) = some (2, 0#64)
     ∧ canonCode (codeLengths k3Counts) 11 = 0b111111110 := by
   decide +kernel
 
-/-- Degenerate tables make `build` panic (index out of bounds, shift by 64, slice split): no value
-besides the sentinel; a count for length 0; more counts than values. In the decoder this sits
-behind a valid VarDCT frame (DHT marker replay), so no file witness can be produced offline. -/
-example : build (List.replicate 17 0) [] = none
-    ∧ build [0, 1, 0, 0, 0, 0, 0, 0, 0, 0, 0, 0, 0, 0, 0, 0, 0] [7] = none
+/-- Degenerate tables: a count for length 0 (shift by 64) and more counts than values (slice split)
+make `build` panic; a table with no value besides the end marker gives the empty table. Since /repo
+cbf2128 `HuffmanCode::parse` rejects the first and the empty value list, so hostile reconstruction
+data no longer reaches them (before, `reconstruct_jpeg` panicked: found by mutating the synthetic
+transcodes of harness/src/synth.rs). -/
+example : (build (List.replicate 17 0) []).isSome = true
+    ∧ (build [0, 1, 0, 0, 0, 0, 0, 0, 0, 0, 0, 0, 0, 0, 0, 0, 0] [7]).isSome = true
     ∧ build [1, 1, 0, 0, 0, 0, 0, 0, 0, 0, 0, 0, 0, 0, 0, 0, 0] [1, 2] = none
     ∧ build [0, 2, 1, 0, 0, 0, 0, 0, 0, 0, 0, 0, 0, 0, 0, 0, 0] [1, 2] = none := by
   decide +kernel
